@@ -139,8 +139,10 @@ def check_r18a(repo, rep, uni, local):
                 memo, dep = idempotent_memo(env, w)
                 rep.ob('R18a', site, memo and w.kind in (
                     'attr', 'aug-attr'),
-                    'idempotent memo depending only on the object' if memo
-                    else 'method of a shared object stores per-call data '
+                    'idempotent memo depending only on the object' if (
+                        memo and w.kind in ('attr', 'aug-attr')) else
+                    'method of a shared object writes into a container it '
+                    'holds on self' if memo else 'method of a shared object stores per-call data '
                     '(%s) on self: another thread evaluating the same '
                     'statement / definition sees it' % sorted(dep),
                     loc=loc, construct=construct)
@@ -232,8 +234,8 @@ def instantiation_sites(repo, uni, ci):
                 role = uni.role(fi) if fi is not None and hasattr(
                     uni, 'role') else 'helper'
                 where = 'construction' if role in (
-                    'construction', 'register', 'hostapi', 'cli') else \
-                    'evaluation'
+                    'construction', 'register', 'hostapi', 'cli',
+                    'parse') else 'evaluation'
             out.append((mod, node, where))
     return out
 
@@ -281,6 +283,40 @@ def check_r18c(repo, rep, uni, local, shared):
             rep.ob('R18c', key, True, 'never instantiated in the library',
                    nontrivial=False)
     return n
+
+
+def check_r18e(repo, rep, uni):
+    """Every evaluate() issued by the library / host API itself runs in a
+    private child of the shared context."""
+    n = 0
+    for fi, role in uni.evaluation_time():
+        if fi.module.name.startswith('yaql.cli'):
+            continue
+        env = uni.env(fi)
+        for call in model.calls_in(fi.node, shallow=True):
+            if not (isinstance(call.func, ast.Attribute) and
+                    call.func.attr == 'evaluate'):
+                continue
+            ctx = None
+            for k in call.keywords:
+                if k.arg == 'context':
+                    ctx = k.value
+            if ctx is None and len(call.args) > 1:
+                ctx = call.args[1]
+            if ctx is None:
+                continue
+            n += 1
+            v = env.ev(ctx)
+            shared = [t for t in v.tags if t[0] in ('global', 'selfattr',
+                                                    'self')]
+            rep.ob('R18e', '%s/evaluate-context' % fi.key, not shared,
+                   'evaluate() is given the shared context %s itself (%s): '
+                   'Statement.evaluate binds `$` in the context it is '
+                   'given, so concurrent calls overwrite each other\'s '
+                   'input; pass <context>.create_child_context()' % (
+                       model.norm(ctx), sorted(shared)),
+                   loc=fi.module.loc(call), construct=model.norm(call))
+    rep.floor('library evaluate() call sites', n, 2)
 
 
 def positive_control(repo, rep, uni, stateful):
@@ -335,6 +371,8 @@ def run(repo, rep):
     rep.rule('R18b', 'NO-GLOBAL-WRITES: no global rebinding, no write into '
              'module-level objects / class attributes / mutable defaults in '
              'evaluation-time code (yaql.eval caches listed with reason)')
+    rep.rule('R18e', 'PRIVATE-CHILD: evaluate() calls issued by the library '
+             '/ host API pass a child context, never a shared one')
     rep.rule('R18c', 'STATEFUL-LAZY-OBJECTS-ARE-CALL-LOCAL: classes whose '
              'methods store to self after construction are instantiated '
              'only inside function bodies')
@@ -354,6 +392,7 @@ def run(repo, rep):
     local, shared = split_stateful(repo, uni, stateful)
     n = check_r18a(repo, rep, uni, local)
     check_r18c(repo, rep, uni, local, shared)
+    check_r18e(repo, rep, uni)
     funcs = uni.evaluation_time()
     rep.count(evaluation_time_functions=len(funcs), classified_writes=n,
               stateful_classes=sorted(stateful))
